@@ -371,7 +371,16 @@ def run(ctx):
                 'assignment; reversed, rotated, re-typed int<->float - ; the same call again on the operand or on the result" (thorough: '
                 'also simulated sessions of 6 free steps); the trace specification tracks the heap and judges every call by the '
                 'single-call clauses on the operands as they are at that moment, plus: no call changes an existing object, an edit changes '
-                'the edited object only. A second cmp matrix holds dicts whose keys are not strings. Non-trivial = input not already '
+                'the edited object only. A second cmp matrix holds dicts whose keys are not strings. '
+                'ERROR PATHS: the session machine has an action for every way cmp / Cmp / sort / dictable.sort legitimately raise (complex numbers and '
+                'bare objects through cmp - also nested and as dict values -, Cmp.__lt__, sorted(key=Cmp), sort, dictable.sort; a missing column by '
+                'name and by keyword, a key function that raises / names an unknown column / returns complex numbers, an unhashable listed value, a '
+                'value order that is no sequence, sort of a non-iterable; 19 ways) - state unchanged - and TLC generates every "raise ; call" and '
+                '"raise ; cmp sample" history, also over a seed heap with numpy scalars, datetime.date objects and a NaN; a cmp sample after a raise '
+                'must satisfy the axioms AND equal the matrix recorded in the fresh process. Every cmp entry observed next to a sort (neighbours of '
+                'a result) is held to the pinned values too. SIZES: base patterns of 2-6 rows / values whose keys are cmp-equal but distinct '
+                'objects (NaN identities, a date and the datetime of its day, 1 and 1.0) scaled up to 8..40, 65, 101, 257, 1025 rows (thorough 2049) '
+                'in block (interleaved) and run layout, 1-3 keys in one call, up to 65 calls on one object; judged by the scaling law of Trace_Order. Non-trivial = input not already '
                 'sorted; distinct by input / by history.')
     if os.environ.get('VERIF_C07_REPORT_PROPOSED') != '1':      # proposed known findings (props/c07.known.json): reported as KNOWN-FINDING, not as violations
         with open(os.path.join(os.path.dirname(os.path.abspath(__file__)), 'c07.known.json')) as f:
@@ -386,6 +395,7 @@ def run(ctx):
     # and frames; the focused family does hold a history in which "already sorted on these keys" is stale (EditsBite must fail)
     ctx.mc('MC_OrderSess', 'MC_OrderSess_quick.cfg' if ctx.quick else 'MC_OrderSess_thorough.cfg')
     ctx.mc('MC_OrderSess', 'MC_OrderSess_bite.cfg', must_fail='EditsBite')
+    ctx.mc('MC_OrderSess', 'MC_OrderSess_err.cfg', must_fail='NoRaiseThenCall')      # the family does hold "a call that raises ; an ordinary call"
     obs = []
     # --- cmp matrix, and a second one over dicts whose keys are not strings ---
     vals = universe()
@@ -557,6 +567,12 @@ def run(ctx):
                         'sessions: key columns are given by name (sort(*names)); sort([names]) - a list as ONE positional argument - is not a '
                         'call form of the statement (today it orders by the alphabetically sorted names) and is not exercised; a sort without keys '
                         'and a sort of an empty table return a shallow copy that shares the column lists and are not part of the sessions',
+                        'a datetime.date against a datetime.datetime is not pinned by the statement (Python has no order between them): such entries are '
+                        'held by the preorder axioms and by history-independence only (OrdDayVsDatetime); two dates follow their native order',
+                        'calls outside the statement\'s universe / domain (OutsideDomain): whether and with which class they raise is recorded, not judged; '
+                        'judged is what they leave behind (heap unchanged, every later call the single-call law, cmp as in the fresh process); the run '
+                        'is a machinery failure if none of them raises (vacuity)',
+                        'scaled tables: every copy of a base row holds the same key objects; the comparison of two big rows is the observed cmp of their base rows',
                         'proposed known findings props/c07.known.json are applied unless VERIF_C07_REPORT_PROPOSED=1',
                         ]
 
